@@ -14,15 +14,18 @@
   The hypotheses `csOK` / `flOK` / `naOK` / `hlOK` / `msgOK` say that the object handed in is new, finished, or
   was returned by an earlier call on a prefix of the buffer (saved positions lie inside the buffer);
   `msgOK_init` shows that every object produced by Init satisfies `msgOK`.
-  NOT yet proved: ParseTokenParam / URI parameter and header lists (stand-alone parsers not used by
-  ParseSIPMsg); for the exempted case (`bodyToEnd`) the statement that everything but the body extent is
-  unchanged.
+  Also `stable_tokparam`: ParseTokenParam, every option combination without the end-of-input option
+  (the property's own exemption), any object.
+  NOT yet proved: the URI parameter and header list wrappers (loops over ParseTokenParam; stand-alone parsers
+  not used by ParseSIPMsg); for the exempted case (`bodyToEnd`) the statement that everything but the body
+  extent is unchanged.
 -/
 import Sipsp.Proofs.CallID
 import Sipsp.Proofs.UInt
 import Sipsp.Proofs.SkipQuoted
 import Sipsp.Proofs.NameAddrL1b
 import Sipsp.Proofs.MsgL1
+import Sipsp.Proofs.TokParamL1
 
 namespace Sipsp.C03
 open Sipsp
@@ -99,6 +102,12 @@ theorem stable_msg_init (b s : Buf) (o : Nat) (ho : o ≤ b.size) (m0 : PSIPMsg)
     parseSIPMsg (b ++ s) o (m0.init len (hdrs.map fun _ => Array.replicate kh {})
       (cts.map fun _ => Array.replicate kc {})) flags = (o', e, m') :=
   parseSIPMsg_stable b s o _ flags (msgOK_init b o ho m0 len kh kc hdrs cts) hfit hnf hr he hx
+
+/-- ParseTokenParam (stand-alone parser; `POptInputEndF` is the "no more data" mode the property exempts) -/
+theorem stable_tokparam (b s : Buf) (o : Nat) (p : PTokParam) (flags : Nat)
+    (hf : hasFlag flags POptInputEndF = false) {o' : Nat} {e : Err} {p' : PTokParam}
+    (h : parseTokenParam b o p flags = (o', e, p')) (he : e ≠ .moreBytes) :
+    parseTokenParam (b ++ s) o p flags = (o', e, p') := parseTokenParam_stable b s o p flags hf h he
 
 /-- a new object satisfies the hypotheses -/
 theorem new_objects_ok (b : Buf) (o : Nat) (ho : o ≤ b.size) :
